@@ -147,6 +147,46 @@ def wf_all(s):
     return z3.And(*[f for _, f in wf(s)])
 
 
+def same_members_and_positions(a, b):
+    """Consequence of `same_key_order(a, b)` and the order views of both dicts (SameOrderLemma): same members at the same positions."""
+    k = z3.Const("k!smp", TStr.sort())
+    return z3.ForAll([k], z3.And(a.has(k) == b.has(k), z3.Implies(a.has(k), a.pos[k] == b.pos[k])))
+
+
+def derived_wf(s):
+    """Facts implied by wf(s) (proved once, generically, in SameOrderLemma); handed to the provers as hypotheses next to wf(s) so that
+    proofs do not depend on the solver guessing the position of a key in a sibling dictionary."""
+    v, n, ix = V(s), N(s), I(s)
+    both = z3.And(same_members_and_positions(v, n), same_members_and_positions(v, ix))
+    return [("derived:same-members-and-positions", z3.Implies(z3.And(same_key_order(v, n), same_key_order(v, ix)), both))]
+
+
+@register
+class SameOrderLemma(Contract):
+    """Two ordered dicts with the same key sequence have the same members at the same positions."""
+
+    targets = ()
+    prop = ("C02",)
+    lemma = True
+
+    def lemmas(self):
+        K = TStr.sort()
+        mk = lambda nm: (z3.Const(nm + "_mem", z3.ArraySort(K, z3.BoolSort())), z3.Const(nm + "_keys", z3.ArraySort(z3.IntSort(), K)),  # noqa: E731
+                         z3.Const(nm + "_pos", z3.ArraySort(K, z3.IntSort())), z3.Int(nm + "_n"))
+        (ma, ka, pa, na), (mb, kb, pb, nb) = mk("a"), mk("b")
+        k, i = z3.Const("k", K), z3.Int("i")
+
+        def order(m, ks, ps, n):
+            return z3.And(n >= 0, z3.ForAll([k], z3.Implies(m[k], z3.And(0 <= ps[k], ps[k] < n, ks[ps[k]] == k)), patterns=[ps[k]]),
+                          z3.ForAll([i], z3.Implies(z3.And(0 <= i, i < n), z3.And(m[ks[i]], ps[ks[i]] == i)), patterns=[ks[i]]))
+
+        same = z3.And(na == nb, z3.ForAll([i], z3.Implies(z3.And(0 <= i, i < na), ka[i] == kb[i])))
+        hyp = z3.And(order(ma, ka, pa, na), order(mb, kb, pb, nb), same)
+        x = z3.Const("x", K)
+        return [("a-member-is-b-member-at-the-same-position", z3.Implies(z3.And(hyp, ma[x]), z3.And(mb[x], pb[x] == pa[x]))),
+                ("b-member-is-a-member-at-the-same-position", z3.Implies(z3.And(hyp, mb[x]), z3.And(ma[x], pa[x] == pb[x])))]
+
+
 def caches_invalidated(s0, s1):
     """A mutator must drop the normalisation data; cached current-value arrays may only survive if
     they were already empty."""
@@ -314,6 +354,9 @@ class RemoveVariable(Contract):
 
     def requires(self, c):
         return wf(c.old.self)
+
+    def axioms(self, c):
+        return derived_wf(c.old.self)
 
     def ensures(self, c):
         s0, s1 = c.old.self, c.new.self
